@@ -15,6 +15,15 @@ try:
     r = subprocess.run(["./check", prop] + extra, cwd="/verif", capture_output=True, text=True, env=env, timeout=3600)
     viol = [l for l in r.stdout.splitlines() if l.startswith("VIOLATION")]
     print("%s %s rc=%d wall=%.0fs" % (os.path.basename(os.path.dirname(mut + "/")) + "/" + os.path.basename(mut.rstrip("/")), prop, r.returncode, time.time() - t0))
+    kinds = {}
+    for v in viol:
+        try:
+            o = json.load(open(v.split("replay=")[1].split()[0]))
+            k = (o.get("kind") or "?") + ":" + str(o.get("name") or o.get("search") or (o.get("class") or "").split("/")[0])
+            kinds[k] = kinds.get(k, 0) + 1
+        except Exception:
+            pass
+    print("   kinds:", kinds)
     for v in viol[:4]:
         print("  ", v)
         path = v.split("replay=")[1].split()[0]
